@@ -653,8 +653,21 @@ def gen_all_algos_plan(rng, tier="quick", stateful=False, random_algos=True):
             st.append({"a": "TargetVol", "args": [rng.choice([0.1, 0.2])], "kw": {"lookback": {"days": gap * 10}, "lag": {"days": rng.choice([0, 1])}}})
         if rng.random() < 0.15:
             nmw = "ptw%d" % len(extra)
-            extra[nmw] = _frame(names, [[round(1.0 / len(names), 4) for _ in names] for _ in dates])
-            st.append({"a": "Or", "algos": [{"a": "RunOnDate", "dates": [dates[0]]}, {"a": "PTE_Rebalance", "args": [rng.choice([0.01, 0.05]), "@" + nmw], "kw": {"lookback": {"days": gap * 8}, "lag": {"days": rng.choice([0, 1])}}}]})
+            # targets may only become available after a warm-up (leading empty rows: no tracking error can be measured, the
+            # algo must stay silent) and may change from date to date
+            lead = rng.randint(1, max(1, (2 * len(dates)) // 3)) if rng.random() < 0.5 else 0
+            vary = rng.random() < 0.5
+            rows_w = []
+            for i2 in range(len(dates)):
+                if i2 < lead:
+                    rows_w.append([None for _ in names])
+                elif vary:
+                    raw = [rng.random() + 0.05 for _ in names]
+                    rows_w.append([round(x / sum(raw), 4) for x in raw])
+                else:
+                    rows_w.append([round(1.0 / len(names), 4) for _ in names])
+            extra[nmw] = _frame(names, rows_w)
+            st.append({"a": "Or", "algos": [{"a": "RunOnDate", "dates": [dates[0]]}, {"a": "PTE_Rebalance", "args": [round(10 ** rng.uniform(-2.5, 0.0), 4), "@" + nmw], "kw": {"lookback": {"days": gap * 8}, "lag": {"days": rng.choice([0, 1])}}}]})
         if rng.random() < 0.1:
             st.append({"a": "RunIfOutOfBounds", "args": [rng.choice([0.05, 0.2])]})
         if rng.random() < 0.1:
@@ -687,6 +700,34 @@ def gen_all_algos_plan(rng, tier="quick", stateful=False, random_algos=True):
             s["children"] = [{"k": "X", "name": t, "cls": "Security", "mult": 1.0, "decl": decl} for t in names]
             _restrict_all(s, names)
     cfg = {"integer": rng.random() < 0.5, "comm": commod.gen(rng, feedmod.min_unit(fspec["prices"])) if rng.random() < 0.5 else None, "capital": capital, "fi": False, "obs_price": False, "obs_eod": False, "profile": "all_algos"}
+    return {"driver": "engine", "cfg": cfg, "tree": root, "feed": fspec, "extra": extra, "fired": fired}
+
+
+def gen_frame_gate_plan(rng, tier="quick"):
+    """a drifting portfolio whose only rebalancing trigger reads a supplied frame (PTE_Rebalance on dated target weights that
+    start after a warm-up and change from date to date): what the trigger sees on a date decides everything recorded from there on"""
+    ndates = rng.randint(10, 30 if tier == "thorough" else 22)
+    fspec, fired = gen_feed(rng, ndates, rng.randint(2, 4), style="bday", faults={}, spread_p=0.3)
+    ensure_moving(fspec, rng)
+    dates, tickers = fspec["dates"], fspec["tickers"]
+    lead = rng.randint(2, max(2, (2 * ndates) // 3)) if rng.random() < 0.7 else 0
+    rows_w = []
+    for i in range(ndates):
+        if i < lead:
+            rows_w.append([None for _ in tickers])
+        else:
+            raw = [rng.random() ** 2 + 0.02 for _ in tickers]
+            rows_w.append([round(x / sum(raw), 4) for x in raw])
+    extra = {"ptw0": _frame(tickers, rows_w)}
+    raw = [rng.random() + 0.1 for _ in tickers]
+    held = {t: round(x / sum(raw), 4) for t, x in zip(tickers, raw)}
+    gate = {"a": "PTE_Rebalance", "args": [round(10 ** rng.uniform(-2.0, -0.3), 4), "@ptw0"], "kw": {"lookback": {"days": rng.choice([10, 20, 40])}, "lag": {"days": rng.choice([0, 0, 1])}}}
+    st = [{"a": "Or", "algos": [{"a": "RunOnDate", "dates": [dates[0]]}, gate]}, {"a": "SelectAll"}, rng.choice([{"a": "WeighEqually"}, {"a": "WeighSpecified", "weights": held}]), {"a": "Rebalance"}]
+    root = {"k": "S", "name": "top", "cls": "Strategy", "fi": False, "how": "list", "children": [], "algos": st}
+    fired["frame_gate_plan"] = 1
+    if lead:
+        fired["targets_start_after_warmup"] = 1
+    cfg = {"integer": rng.random() < 0.5, "comm": None, "capital": 1e6, "fi": False, "obs_price": False, "obs_eod": False, "profile": "frame_gate"}
     return {"driver": "engine", "cfg": cfg, "tree": root, "feed": fspec, "extra": extra, "fired": fired}
 
 
